@@ -45,22 +45,7 @@ def add(U, with_lemmas=True, arith_op=True):
 ensures r == (match *self { ArrayDims::D1(..) => 1usize, ArrayDims::D2(..) => 2usize, ArrayDims::D3(..) => 3usize }),''')),
     ])
     f.impl('Type', [
-        ('base_type', dict(ret='r', props=['C20', 'C08'], spec='''
-ensures
-    (r == BaseType::Int) == (*self is Int), (r == BaseType::UInt) == (*self is UInt),
-    (r == BaseType::Float) == (*self is Float), (r == BaseType::Complex) == (*self is Complex),
-    (r == BaseType::Angle) == (*self is Angle), (r == BaseType::Bit) == (*self is Bit),
-    (r == BaseType::Bool) == (*self is Bool), (r == BaseType::Duration) == (*self is Duration),
-    (r == BaseType::Stretch) == (*self is Stretch), (r == BaseType::BitArray) == (*self is BitArray),
-    (r == BaseType::Qubit) == (*self is Qubit), (r == BaseType::HardwareQubit) == (*self is HardwareQubit),
-    (r == BaseType::QubitArray) == (*self is QubitArray), (r == BaseType::Void) == (*self is Void),
-    (r == BaseType::Gate) == (*self is Gate), (r == BaseType::SubroutineDef) == (*self is SubroutineDef),
-    (r == BaseType::Undefined) == (*self is Undefined), (r == BaseType::ToDo) == (*self is ToDo),
-    (r == BaseType::IntArray) == (*self is IntArray), (r == BaseType::UIntArray) == (*self is UIntArray),
-    (r == BaseType::FloatArray) == (*self is FloatArray), (r == BaseType::AngleArray) == (*self is AngleArray),
-    (r == BaseType::ComplexArray) == (*self is ComplexArray), (r == BaseType::BoolArray) == (*self is BoolArray),
-    (r == BaseType::DurationArray) == (*self is DurationArray), (r == BaseType::Range) == (*self is Range),
-    (r == BaseType::Set) == (*self is Set),''')),
+        ('base_type', dict(ret='r', props=['C20', 'C08'], spec='ensures r == sp_base(*self),      //@C08,C20:base-type-is-the-variant')),
         ('is_scalar', dict(ret='r', props=['C08'], spec='''
 ensures r == (*self is Bit || *self is Int || *self is UInt || *self is Float || *self is Angle
               || *self is Complex || *self is Bool || *self is Duration || *self is Stretch),''')),
@@ -83,6 +68,7 @@ ensures *self == *other ==> r,''')),
          spec='ensures r == eq_upto_const(*ty1, *ty2),')
     f.fn('equal_base_type', ret='r', props=['C20', 'C08'], spec='''
 ensures
+    r == same_kind(*ty1, *ty2),                                                        //@C08,C20:same-kind
     r ==> ((*ty1 is Int) == (*ty2 is Int)) && ((*ty1 is UInt) == (*ty2 is UInt)) && ((*ty1 is Float) == (*ty2 is Float))
           && ((*ty1 is Complex) == (*ty2 is Complex)),
     eq_upto_const(*ty1, *ty2) ==> r,
@@ -117,6 +103,10 @@ ensures
     r != Type::Void ==> (in_tower(r) || eq_upto_const(r, *ty1)),                      //@C20:range
     // the kind never goes down, carve-outs included
     (in_tower(*ty1) && in_tower(*ty2) && r != Type::Void) ==> (kind_le(*ty1, r) && kind_le(*ty2, r)),   //@C20:kind-upper-bound
+    // (helper for C08, read off the code: this is what the recorded findings C20-narrow / C20-const-cross say)
+    // across kinds the result is exactly the operand of the higher kind
+    (in_tower(*ty1) && in_tower(*ty2) && kind_le(*ty1, *ty2) && !kind_le(*ty2, *ty1)) ==> r == *ty2,
+    (in_tower(*ty1) && in_tower(*ty2) && kind_le(*ty2, *ty1) && !kind_le(*ty1, *ty2)) ==> r == *ty1,
 '''
     f.fn('promote_types', ret='r', props=['C20', 'C08'], spec=C20_POST)
     f.fn('promote_types_not_equal', ret='r', props=['C20', 'C08'], spec='''
@@ -130,6 +120,8 @@ ensures
     // never float/complex into an integer target, never complex into a float target
     ((*ty1 is Int || *ty1 is UInt) && (*ty_lit is Float || *ty_lit is Complex)) ==> !r,   //@C20:cast-excludes
     (*ty1 is Float && *ty_lit is Complex) ==> !r,                                     //@C20:cast-excludes
+    // a literal is never cast silently across a conversion that must be diagnosed
+    must_diagnose(*ty1, *ty_lit) ==> !r,                                              //@C08:no-literal-cast-for-kind-lowering
 ''')
     U.implicit_cast_kw = dict(ret='r', props=['C20', 'C08'],
                  rewrites=[('D13', 'types::promote_types(', 'promote_types(', 3)],
